@@ -5,7 +5,7 @@ namespace Driver.C20
 open IdModel.Resolver IdModel.Doc
 
 def behaves (name n : Nat) : Bool :=
-  if name == 1 then n < 50 else if name == 2 then n % 2 == 0 else true
+  if name == 1 then n < 50 else if name == 2 || name == 4 then n % 2 == 0 else true
 
 /-- handler `name` attached for method `m`; method 4's handler takes an IOTA DID and refuses odd ids -/
 def mkHandler (m name : Nat) : Handler :=
@@ -72,7 +72,7 @@ def handle (args : List String) : String :=
       | .error _ => "err:immediate"
   | ["jwk", v] =>
     if v == "priv" then "err:handler" else if v == "garbage" then "err:parse" else
-    if v != "ed" && v != "edalg" && v != "edx5" && v != "p256" then "bad-request" else
+    if v != "ed" && v != "edalg" && v != "edx5" && v != "p256" && v != "rsa" && v != "edchain" then "bad-request" else
     let doc := expandDidJwk 1 77
     let mid : Id := ⟨1, 0, some 0⟩
     let key := match doc.vm with | [m] => m.body == 77 && m.id == mid | _ => false
